@@ -59,7 +59,7 @@ class Transcript:
             self.add(name, f'KeyError({exc})')
 
 
-def battery(t, data_dir, resource_xml, scratch):
+def battery(t, data_dir, resource_xml, scratch, reverse=False):
     import wn
     import wn.ic
     from wn import taxonomy, similarity, lmf
@@ -82,43 +82,61 @@ def battery(t, data_dir, resource_xml, scratch):
         t.add(f'{tag} senses()', senses)
         t.add(f'{tag} synsets()', synsets)
         t.add(f'{tag} ilis()', w.ilis())
-        for x in words:
+        def group(entity_calls):
+            """the calls on one entity, forward or (second pass) in reverse order: read-only calls must not
+            influence one another, so both orders have to produce the same values"""
+            for name, f in (reversed(entity_calls) if reverse else entity_calls):
+                t.attempt(name, f)
+
+        for x in (reversed(words) if reverse else words):
             k = canon(x)
-            t.add(f'{tag} {k}.forms', x.forms())
-            t.add(f'{tag} {k}.tags', [[(tg.tag, tg.category) for tg in f.tags()] for f in x.forms()])
-            t.attempt(f'{tag} {k}.senses', x.senses)
-            t.attempt(f'{tag} {k}.synsets', x.synsets)
-            t.attempt(f'{tag} {k}.derived_words', x.derived_words)
-            t.add(f'{tag} {k}.metadata', x.metadata())
-            t.add(f'{tag} words({str(x.lemma())!r})', w.words(str(x.lemma())))
-            t.add(f'{tag} synsets({str(x.lemma())!r})', w.synsets(str(x.lemma())))
-        for x in senses:
+            lem = str(x.lemma())
+            group([
+                (f'{tag} {k}.forms', x.forms),
+                (f'{tag} {k}.tags', lambda x=x: [[(tg.tag, tg.category) for tg in f.tags()] for f in x.forms()]),
+                (f'{tag} {k}.senses', x.senses),
+                (f'{tag} {k}.synsets', x.synsets),
+                (f'{tag} {k}.derived_words', x.derived_words),
+                (f'{tag} {k}.metadata', x.metadata),
+                (f'{tag} {k} words({lem!r})', lambda lem=lem: w.words(lem)),
+                (f'{tag} {k} synsets({lem!r})', lambda lem=lem: w.synsets(lem)),
+            ])
+        for x in (reversed(senses) if reverse else senses):
             k = canon(x)
-            t.attempt(f'{tag} {k}.word', x.word)
-            t.attempt(f'{tag} {k}.synset', x.synset)
-            t.add(f'{tag} {k}.relations', x.relations())
-            t.add(f'{tag} {k}.get_related', x.get_related())
-            t.add(f'{tag} {k}.get_related_synsets', x.get_related_synsets('*'))
-            t.add(f'{tag} {k}.relation_map', x.relation_map())
-            t.add(f'{tag} {k}.closure', list(x.closure()))
-            t.add(f'{tag} {k}.frames', x.frames())
-            t.add(f'{tag} {k}.examples', x.examples())
-            t.add(f'{tag} {k}.counts', [(int(c), c.metadata()) for c in x.counts()])
-            t.add(f'{tag} {k}.metadata', x.metadata())
-        for x in synsets:
+            group([
+                (f'{tag} {k}.word', x.word),
+                (f'{tag} {k}.synset', x.synset),
+                (f'{tag} {k}.relations', x.relations),
+                (f'{tag} {k}.get_related', x.get_related),
+                (f'{tag} {k}.get_related_synsets', lambda x=x: x.get_related_synsets('*')),
+                (f'{tag} {k}.relation_map', x.relation_map),
+                (f'{tag} {k}.closure', lambda x=x: list(x.closure())),
+                (f'{tag} {k}.get_related(again)', x.get_related),
+                (f'{tag} {k}.frames', x.frames),
+                (f'{tag} {k}.examples', x.examples),
+                (f'{tag} {k}.counts', lambda x=x: [(int(c), c.metadata()) for c in x.counts()]),
+                (f'{tag} {k}.metadata', x.metadata),
+            ])
+        for x in (reversed(synsets) if reverse else synsets):
             k = canon(x)
-            t.add(f'{tag} {k}.senses', x.senses())
-            t.attempt(f'{tag} {k}.words', x.words)
-            t.add(f'{tag} {k}.definition', x.definition())
-            t.add(f'{tag} {k}.examples', x.examples())
-            t.add(f'{tag} {k}.relations', x.relations())
-            t.add(f'{tag} {k}.get_related', x.get_related())
-            t.add(f'{tag} {k}.relation_map', x.relation_map())
-            t.add(f'{tag} {k}.closure', list(x.closure('hypernym', 'instance_hypernym')))
-            t.add(f'{tag} {k}.hypernym_paths', x.hypernym_paths())
-            t.add(f'{tag} {k}.hypernym_paths(sr)', x.hypernym_paths(simulate_root=True))
-            t.add(f'{tag} {k}.depths', (x.min_depth(), x.max_depth()))
-            t.add(f'{tag} {k}.translate', x.translate())
+            group([
+                (f'{tag} {k}.senses', x.senses),
+                (f'{tag} {k}.words', x.words),
+                (f'{tag} {k}.definition', x.definition),
+                (f'{tag} {k}.examples', x.examples),
+                (f'{tag} {k}.relations', x.relations),
+                (f'{tag} {k}.get_related', x.get_related),
+                (f'{tag} {k}.hypernyms', x.hypernyms),
+                (f'{tag} {k}.relation_map', x.relation_map),
+                (f'{tag} {k}.closure', lambda x=x: list(x.closure('hypernym', 'instance_hypernym'))),
+                (f'{tag} {k}.closure()', lambda x=x: list(x.closure())),
+                (f'{tag} {k}.hypernyms(again)', x.hypernyms),
+                (f'{tag} {k}.get_related(again)', x.get_related),
+                (f'{tag} {k}.hypernym_paths', x.hypernym_paths),
+                (f'{tag} {k}.hypernym_paths(sr)', lambda x=x: x.hypernym_paths(simulate_root=True)),
+                (f'{tag} {k}.depths', lambda x=x: (x.min_depth(), x.max_depth())),
+                (f'{tag} {k}.translate', x.translate),
+            ])
         # taxonomy / IC / similarity on the graph lexicons (hypernymy stays inside one part of speech there)
         if sel and len(sel) == 1 and sel[0].startswith('g') and len(synsets) <= 12:
             for pos in ('n', 'v', 'a'):
@@ -195,6 +213,13 @@ def main():
     if t1.lines != t2.lines:
         i = next(i for i, (a, b) in enumerate(zip(t1.lines, t2.lines)) if a != b)
         extra.append(f'REPEAT-DIFF line {i}: {t1.lines[i][:300]} ||| {t2.lines[i][:300]}')
+    # third pass: the per-entity calls in reverse order - same values expected (compared as sorted lines)
+    t3 = Transcript()
+    battery(t3, data_dir, resource_xml, scratch, reverse=True)
+    a, b = sorted(t1.lines), sorted(t3.lines)
+    if a != b:
+        i = next((i for i, (x, y) in enumerate(zip(a, b)) if x != y), min(len(a), len(b)))
+        extra.append(f'ORDER-DIFF: {a[i][:300] if i < len(a) else None} ||| {b[i][:300] if i < len(b) else None}')
     if writes or conn.total_changes != changes0:
         extra.append(f'WRITE-IN-READONLY {writes[:2]} total_changes {changes0}->{conn.total_changes}')
     out.write_text(json.dumps({'lines': t1.lines, 'calls': t1.calls, 'extra': extra}))
